@@ -1,6 +1,8 @@
 package props
 
 import (
+	"astverif/demuxrules"
+	"astverif/errflow"
 	"astverif/extrarules"
 	"astverif/ownership"
 )
@@ -38,4 +40,10 @@ func c20(c *Ctx) {
 	ownership.Globals(c.P, r, "globals")
 	ownership.Redetect(c.P, r, c20Reset, R)
 	extrarules.SharedProgramMap(c.P, r)
+	// the kept program map makes a rewound pass equal to a fresh one only if a PAT is delivered by the very packet that
+	// completes it (before the PMTs that follow): the completeness rules R6, R9, R10 of C02
+	demuxrules.New(c.P, r).PSICompleteRules()
+	// "Rewind reports the new offset 0 and no error" — and a failing Seek is reported, not swallowed (E2/E3 of C18)
+	sets := errflow.ComputeIOSets(c.P)
+	errflow.E2E3(c.P, r, sets, errflow.E2Options{Exceptions: e2Exceptions, OnlyIO: true})
 }
